@@ -1,1 +1,573 @@
-// placeholder: c03 monitors (not built yet)
+// C03 Multiplication proofs accept honest batches and reject any altered one.
+//
+// (a) algebra of the u/v tables on all 64 combinations x all 256 block positions;
+// (b) `Batch`es built directly on the three helpers from a reference three-party multiplication
+//     model, validated with the real `Batch::validate`; then one stored bit flipped => some helper must
+//     reject;
+// (c) real multiplications (select over BA widths / Boolean multiply) under `dzkp_validator` in
+//     single-shot and batched mode with one transmitted bit of a multiplication message flipped.
+#[cfg(not(feature = "shuttle"))]
+mod m {
+    use std::{
+        collections::BTreeMap,
+        sync::{Arc, Mutex},
+        time::Duration,
+    };
+
+    use bitvec::prelude::{BitVec, Lsb0};
+    use futures::{StreamExt, TryStreamExt, future::join_all, stream};
+    use ipa_step::StepNarrow;
+    use serde_json::{Value, json};
+
+    use super::super::super::{BitSliceType, Batch, DZKPValidator, MultiplicationInputsBlock, Segment, SegmentEntry};
+    use crate::{
+        error::Error,
+        ff::{
+            Field, Fp61BitPrime, U128Conversions,
+            boolean::Boolean,
+            boolean_array::{BA3, BA8, BA20, BA32, BA64, BA256, BooleanArray},
+        },
+        helpers::TotalRecords,
+        protocol::{
+            Gate, RecordId,
+            basics::{BooleanArrayMul, SecureMul, select},
+            context::{
+                Context, DZKPUpgradedMaliciousContext, TEST_DZKP_STEPS, UpgradableContext,
+                dzkp_field::{DZKPBaseField, TABLE_U, TABLE_V},
+            },
+        },
+        secret_sharing::SharedValue,
+        secret_sharing::replicated::{ReplicatedSecretSharing, semi_honest::AdditiveShare as Replicated},
+        seq_join::SeqJoin,
+        sharding::NotSharded,
+        test_fixture::{TestWorld, TestWorldConfig},
+        verif::{
+            vlib::{self, Paused, Recorder, VRng, catch_fut},
+            wl::{self, ChunkInfo, Fault, Pattern, TapState},
+        },
+    };
+
+    type Bv = BitVec<u8, Lsb0>;
+
+    // -----------------------------------------------------------------------------------------
+    // (a) algebra
+    // -----------------------------------------------------------------------------------------
+
+    fn dot(u: &[Fp61BitPrime; 4], v: &[Fp61BitPrime; 4]) -> Fp61BitPrime {
+        let mut s = Fp61BitPrime::ZERO;
+        for i in 0..4 {
+            s += u[i] * v[i];
+        }
+        s
+    }
+
+    #[test]
+    fn verif_c03_table_identity_x1() {
+        let env = vlib::env();
+        let mut rec = Recorder::new("C03", "verif_c03_table_identity_x1");
+        let minus_half = Fp61BitPrime::MINUS_ONE_HALF;
+        let two = Fp61BitPrime::ONE + Fp61BitPrime::ONE;
+        rec.eval();
+        if minus_half * two + Fp61BitPrime::ONE != Fp61BitPrime::ZERO || Fp61BitPrime::MINUS_TWO + two != Fp61BitPrime::ZERO {
+            rec.violation("proof-field constants -1/2 or -2 are wrong", json!({"kind": "constants"}), json!({}));
+        }
+        // all 64 combinations of (a, b, c, d, e, f)
+        for k in 0..64u32 {
+            let (a, b, c, d, e, f) = (k & 1, (k >> 1) & 1, (k >> 2) & 1, (k >> 3) & 1, (k >> 4) & 1, (k >> 5) & 1);
+            let iu = (a + 2 * c + 4 * e) as usize;
+            let iv = (b + 2 * d + 4 * f) as usize;
+            let s = dot(&TABLE_U[iu], &TABLE_V[iv]);
+            let consistent = e == ((a & b) ^ (c & d) ^ f);
+            rec.eval();
+            let ok = if consistent { s == minus_half } else { s != minus_half && s == Fp61BitPrime::ZERO - minus_half };
+            if ok {
+                rec.count("table_identity_ok");
+                rec.distinct(&("combo", k));
+            } else {
+                rec.violation(
+                    "sum g_i*h_i is not (-1/2 iff e = ab^cd^f)",
+                    json!({"kind": "table_identity", "consistent": consistent}),
+                    json!({"a": a, "b": b, "c": c, "d": d, "e": e, "f": f, "sum": s.as_u128().to_string()}),
+                );
+            }
+        }
+        // every position of a 256-bit block x every combination of the six prover-side intermediates, on a random
+        // background: the prover's table indices at that position, and the two verifiers' indices on the rotated views
+        let mut r = VRng::new(env.seed ^ 0xc03, 0);
+        let rnd = |r: &mut VRng| -> [u8; 32] {
+            let mut x = [0u8; 32];
+            for b in &mut x {
+                *b = r.next() as u8;
+            }
+            x
+        };
+        for pos in 0..256usize {
+            for k in 0..128u32 {
+                // bits: x1 x2 x3? -> use the full three-party model at this position: 9 bits would be 512 combos; cover the
+                // prover's six inputs (x_i, x_{i+1}, y_i, y_{i+1}, p_i, p_{i+1}) + z_{i+1} consistency bit
+                let mut blk = MultiplicationInputsBlock {
+                    x_left: rnd(&mut r).into(),
+                    x_right: rnd(&mut r).into(),
+                    y_left: rnd(&mut r).into(),
+                    y_right: rnd(&mut r).into(),
+                    prss_left: rnd(&mut r).into(),
+                    prss_right: rnd(&mut r).into(),
+                    z_right: rnd(&mut r).into(),
+                };
+                let bit = |j: u32| (k >> j) & 1 == 1;
+                blk.x_left.set(pos, bit(0));
+                blk.x_right.set(pos, bit(1));
+                blk.y_left.set(pos, bit(2));
+                blk.y_right.set(pos, bit(3));
+                blk.prss_left.set(pos, bit(4));
+                blk.prss_right.set(pos, bit(5));
+                blk.z_right.set(pos, bit(6));
+                let (a, b, c, d, f) = (bit(0), bit(3), bit(2), bit(1), bit(5));
+                let e = (a & b) ^ (c & d) ^ f;
+                let want_u = u8::from(a) + 2 * u8::from(c) + 4 * u8::from(e);
+                let want_v = u8::from(b) + 2 * u8::from(d) + 4 * u8::from(f);
+                let got = blk.table_indices_prover();
+                // verifier to the left of a prover sees (x_right, y_right, z_right, prss_right) of its own block
+                let e_l = (bit(1) & bit(3)) ^ bit(5) ^ bit(6);
+                let want_from_right = u8::from(bit(1)) + 2 * u8::from(bit(3)) + 4 * u8::from(e_l);
+                let got_from_right = blk.table_indices_from_right_prover();
+                let want_from_left = u8::from(bit(2)) + 2 * u8::from(bit(0)) + 4 * u8::from(bit(4));
+                let got_from_left = blk.table_indices_from_left_prover();
+                rec.eval();
+                if got.len() == 256 && got[pos] == (want_u, want_v) && got_from_right[pos] == want_from_right && got_from_left[pos] == want_from_left {
+                    rec.count("block_position_indices_ok");
+                    if k < 64 {
+                        rec.distinct(&("pos", pos, k));
+                    }
+                } else {
+                    rec.violation(
+                        "table indices computed for a block position differ from the reference",
+                        json!({"kind": "table_indices"}),
+                        json!({"pos": pos, "combo": k, "got_prover": format!("{:?}", got.get(pos)), "want_prover": [want_u, want_v],
+                               "got_from_right": got_from_right.get(pos), "want_from_right": want_from_right,
+                               "got_from_left": got_from_left.get(pos), "want_from_left": want_from_left}),
+                    );
+                }
+            }
+        }
+        rec.sample(json!({"combinations": 64, "positions": 256, "per_position_combinations": 128}));
+        rec.finish();
+    }
+
+    // -----------------------------------------------------------------------------------------
+    // (b) direct batches from a reference multiplication model
+    // -----------------------------------------------------------------------------------------
+
+    /// the seven intermediates of one helper for one record (each `width` bits)
+    #[derive(Clone)]
+    struct Seven {
+        a: [Bv; 7], // x_left, x_right, y_left, y_right, prss_left, prss_right, z_right
+    }
+    const ARRAYS: [&str; 7] = ["x_left", "x_right", "y_left", "y_right", "prss_left", "prss_right", "z_right"];
+
+    /// Reference three-party multiplication: z_i = x_i y_i ^ x_i y_{i+1} ^ x_{i+1} y_i ^ p_i ^ p_{i+1};
+    /// helper i records (x_i, x_{i+1}, y_i, y_{i+1}, p_i, p_{i+1}, z_{i+1}).
+    fn model_record(width: usize, r: &mut VRng) -> [Seven; 3] {
+        let genv = |r: &mut VRng| -> Vec<bool> { (0..width).map(|_| r.bool()).collect() };
+        let x: [Vec<bool>; 3] = [genv(r), genv(r), genv(r)];
+        let y: [Vec<bool>; 3] = [genv(r), genv(r), genv(r)];
+        let p: [Vec<bool>; 3] = [genv(r), genv(r), genv(r)];
+        let z: Vec<Vec<bool>> = (0..3)
+            .map(|i| {
+                let n = (i + 1) % 3;
+                (0..width).map(|k| (x[i][k] & y[i][k]) ^ (x[i][k] & y[n][k]) ^ (x[n][k] & y[i][k]) ^ p[i][k] ^ p[n][k]).collect()
+            })
+            .collect();
+        let bv = |v: &Vec<bool>| -> Bv { v.iter().copied().collect() };
+        std::array::from_fn(|i| {
+            let n = (i + 1) % 3;
+            Seven { a: [bv(&x[i]), bv(&x[n]), bv(&y[i]), bv(&y[n]), bv(&p[i]), bv(&p[n]), bv(&z[n])] }
+        })
+    }
+
+    #[derive(Clone, Debug)]
+    struct BatchCase {
+        width: usize,
+        records: usize,
+        gates: usize,
+        first_record: usize,
+        explicit_first: bool,
+        /// (helper, gate, record, array, bit)
+        flip: Option<(usize, usize, usize, usize, usize)>,
+        seed: u64,
+    }
+    impl BatchCase {
+        fn to_json(&self) -> Value {
+            json!({"width": self.width, "records": self.records, "gates": self.gates, "first_record": self.first_record,
+                   "explicit_first": self.explicit_first, "seed": self.seed,
+                   "flip": self.flip.map(|(h, g, rcd, a, b)| json!({"helper": h, "gate": g, "record": rcd, "array": ARRAYS[a], "bit": b}))})
+        }
+        fn blocks_per_gate(&self) -> usize {
+            let w = if self.width < 256 { self.width.next_power_of_two() } else { self.width };
+            (self.records * w).div_ceil(256)
+        }
+    }
+
+    fn run_batch_case(case: &BatchCase) -> (Paused<Vec<Result<Result<(), String>, String>>>, usize) {
+        // data for all gates / records / helpers
+        let mut r = VRng::new(case.seed, 7);
+        let mut data: Vec<Vec<[Seven; 3]>> = Vec::new();
+        for _ in 0..case.gates {
+            data.push((0..case.records).map(|_| model_record(case.width, &mut r)).collect());
+        }
+        if let Some((h, g, rcd, arr, bit)) = case.flip {
+            let cur = data[g][rcd][h].a[arr][bit];
+            data[g][rcd][h].a[arr].set(bit, !cur);
+        }
+        let case = case.clone();
+        let total_blocks = case.blocks_per_gate() * case.gates;
+        let out = vlib::run_paused(Duration::from_secs(60), async move {
+            let mut cfg = TestWorldConfig::default();
+            cfg.seed = case.seed;
+            cfg.timeout = None;
+            let world = TestWorld::new_with(&cfg);
+            let ctxs = world.malicious_contexts();
+            let futs = ctxs.into_iter().enumerate().map(|(h, ctx)| {
+                let data = &data;
+                let case = &case;
+                async move {
+                    let first = if case.explicit_first { Some(RecordId::from(case.first_record)) } else { None };
+                    let mut batch = Batch::new(first, case.records);
+                    for g in 0..case.gates {
+                        let gate = Gate::default().narrow(&format!("mul-gate-{g}"));
+                        for rcd in 0..case.records {
+                            let s = &data[g][rcd][h];
+                            let seg = Segment::from_entries(
+                                SegmentEntry::from_bitslice(&s.a[0]),
+                                SegmentEntry::from_bitslice(&s.a[1]),
+                                SegmentEntry::from_bitslice(&s.a[2]),
+                                SegmentEntry::from_bitslice(&s.a[3]),
+                                SegmentEntry::from_bitslice(&s.a[4]),
+                                SegmentEntry::from_bitslice(&s.a[5]),
+                                SegmentEntry::from_bitslice(&s.a[6]),
+                            );
+                            batch.push(gate.clone(), RecordId::from(case.first_record + rcd), seg);
+                        }
+                    }
+                    let base = ctx.narrow("c03-validate").validator_context();
+                    catch_fut(batch.validate(base, 0)).await.map(|r| r.map_err(|e| format!("{e:?}")))
+                }
+            });
+            join_all(futs).await
+        });
+        (out, total_blocks)
+    }
+
+    fn judge_batch(rec: &mut Recorder, case: &BatchCase, idx: usize) {
+        let (out, blocks) = run_batch_case(case);
+        rec.eval();
+        let Paused::Done(res) = out else {
+            rec.violation(
+                "batch validation did not complete",
+                json!({"kind": "no_completion", "flipped": case.flip.is_some()}),
+                json!({"case": idx, "batch_case": case.to_json()}),
+            );
+            return;
+        };
+        let classes: Vec<String> = res
+            .iter()
+            .map(|r| match r {
+                Ok(Ok(())) => "ok".to_string(),
+                Ok(Err(e)) => format!("err:{}", e.split(|c: char| !c.is_alphanumeric()).next().unwrap_or("")),
+                Err(_) => "panic".to_string(),
+            })
+            .collect();
+        let all_ok = classes.iter().all(|c| c == "ok");
+        match case.flip {
+            None => {
+                if all_ok {
+                    rec.count("honest_batch_accepted");
+                    rec.distinct(&("honest", case.width, case.records, case.gates, case.explicit_first, case.first_record > 0));
+                    rec.seen("honest_shapes", format!("w{}/blocks{}/gates{}", case.width, blocks, case.gates));
+                } else {
+                    rec.violation(
+                        "an honest multiplication batch was rejected",
+                        json!({"kind": "honest_rejected", "width": case.width, "blocks_per_gate": case.blocks_per_gate(), "gates": case.gates}),
+                        json!({"case": idx, "batch_case": case.to_json(), "results": format!("{res:?}").chars().take(400).collect::<String>()}),
+                    );
+                }
+            }
+            Some((h, _, _, arr, _)) => {
+                if all_ok {
+                    rec.violation(
+                        "a batch with one flipped recorded bit was accepted by all three helpers",
+                        json!({"kind": "flip_accepted", "array": ARRAYS[arr], "width": case.width, "blocks_per_gate": case.blocks_per_gate()}),
+                        json!({"case": idx, "batch_case": case.to_json()}),
+                    );
+                } else {
+                    rec.count("flipped_batch_rejected");
+                    rec.distinct(&("flip", case.width, case.records, case.gates, h, arr));
+                    // who rejected, relative to the deviating helper (evidence only)
+                    for (i, c) in classes.iter().enumerate() {
+                        if c != "ok" {
+                            rec.seen("rejecting_helper_relative_to_flipped", format!("{}:{}", ARRAYS[arr], ["self", "right", "left"][(i + 3 - h) % 3]));
+                        }
+                    }
+                }
+            }
+        }
+    }
+
+    const WIDTHS: [usize; 8] = [1, 3, 8, 20, 32, 64, 256, 512];
+    const BLOCKS: [usize; 12] = [1, 2, 3, 4, 5, 7, 15, 16, 17, 31, 33, 64];
+
+    fn records_for(width: usize, blocks: usize, r: &mut VRng) -> usize {
+        let w = if width < 256 { width.next_power_of_two() } else { width };
+        // number of records whose packed size is `blocks` blocks (exactly full or with a partially used last block)
+        let per_block = (256 / w).max(1);
+        let full = if width < 256 { blocks * per_block } else { blocks / (w / 256).max(1) };
+        let full = full.max(1);
+        if width < 256 && per_block > 1 && r.bool() { full - r.below(per_block as u64 - 1).min(full as u64 - 1) as usize } else { full }
+    }
+
+    #[test]
+    fn verif_c03_batches() {
+        let env = vlib::env();
+        let mut rec = Recorder::new("C03", "verif_c03_batches");
+        let mut idx = 0usize;
+        // honest shapes + seeded flips
+        let flips_per_shape = env.pick(4, 16);
+        for (wi, &width) in WIDTHS.iter().enumerate() {
+            for (bi, &blocks) in BLOCKS.iter().enumerate() {
+                if width == 512 && blocks % 2 == 1 && blocks > 1 {
+                    continue;
+                }
+                // quick: thin the grid
+                if !env.thorough && vlib::fxhash(&(wi, bi, env.seed)) % 3 == 0 {
+                    idx += 1 + flips_per_shape;
+                    continue;
+                }
+                let mut r = VRng::new(env.seed ^ 0xc03b, (wi * 100 + bi) as u64);
+                let records = records_for(width, blocks, &mut r);
+                let gates = 1 + (wi + bi) % 4;
+                let explicit_first = (wi + bi) % 2 == 0;
+                let first_record = if (wi + bi) % 3 == 0 { 0 } else { 5 + (bi * 7) % 40 };
+                let base = BatchCase { width, records, gates: if blocks > 16 { 1 } else { gates }, first_record, explicit_first, flip: None, seed: env.seed.wrapping_mul(1009) + (wi * 100 + bi) as u64 };
+                idx += 1;
+                if env.mine(idx) {
+                    judge_batch(&mut rec, &base, idx);
+                    if rec.want_sample() {
+                        rec.sample(json!({"honest_batch": base.to_json(), "blocks_per_gate": base.blocks_per_gate()}));
+                    }
+                }
+                for k in 0..flips_per_shape {
+                    idx += 1;
+                    if !env.mine(idx) {
+                        continue;
+                    }
+                    let mut c = base.clone();
+                    c.flip = Some((
+                        (k + wi) % 3,
+                        r.below(c.gates as u64) as usize,
+                        r.below(c.records as u64) as usize,
+                        (k + bi + r.below(7) as usize) % 7,
+                        r.below(width as u64) as usize,
+                    ));
+                    judge_batch(&mut rec, &c, idx);
+                }
+            }
+        }
+        // thorough: every bit of every intermediate of every helper for one full block (7 x 256 x 3)
+        if env.thorough {
+            for h in 0..3 {
+                for arr in 0..7 {
+                    for bit in 0..256 {
+                        idx += 1;
+                        if !env.mine(idx) {
+                            continue;
+                        }
+                        let c = BatchCase { width: 256, records: 1, gates: 1, first_record: 0, explicit_first: true, flip: Some((h, 0, 0, arr, bit)), seed: env.seed ^ 0xb10c };
+                        judge_batch(&mut rec, &c, idx);
+                    }
+                }
+            }
+            rec.note("exhaustive single-bit flips of one 256-bit block: 7 arrays x 256 bits x 3 helpers");
+        } else {
+            // quick: one flip per (helper, array) on a one-block batch
+            for h in 0..3 {
+                for arr in 0..7 {
+                    idx += 1;
+                    if !env.mine(idx) {
+                        continue;
+                    }
+                    let bit = (vlib::fxhash(&(h, arr, env.seed)) % 256) as usize;
+                    let c = BatchCase { width: 256, records: 1, gates: 1, first_record: 0, explicit_first: true, flip: Some((h, 0, 0, arr, bit)), seed: env.seed ^ 0xb10c };
+                    judge_batch(&mut rec, &c, idx);
+                }
+            }
+        }
+        rec.finish();
+    }
+
+    // -----------------------------------------------------------------------------------------
+    // (c) real multiplications with one transmitted bit flipped
+    // -----------------------------------------------------------------------------------------
+
+    #[derive(Clone, Debug)]
+    struct MulCase {
+        ty: &'static str,
+        count: usize,
+        batch: usize,
+        batched_mode: bool,
+        seed: u64,
+    }
+
+    async fn select_body<V>(case: MulCase, interceptor: crate::helpers::in_memory_config::DynStreamInterceptor) -> Vec<Result<Result<usize, String>, String>>
+    where
+        V: BooleanArray + U128Conversions,
+        for<'a> Replicated<V>: BooleanArrayMul<DZKPUpgradedMaliciousContext<'a, NotSharded>>,
+    {
+        let mut cfg = TestWorldConfig::default();
+        cfg.seed = case.seed;
+        cfg.timeout = None;
+        cfg.stream_interceptor = interceptor;
+        let world = TestWorld::new_with(&cfg);
+        let mut r = VRng::new(case.seed ^ 0x5e1, 0);
+        let mut inputs: [Vec<(Replicated<Boolean>, Replicated<V>, Replicated<V>)>; 3] = Default::default();
+        for _ in 0..case.count {
+            let bit = wl::share_ba::<crate::ff::boolean_array::BA8>(r.below(2) as u128, &mut r); // only the lowest bit is used
+            let a = wl::share_ba::<V>(r.u128(), &mut r);
+            let b = wl::share_ba::<V>(r.u128(), &mut r);
+            for h in 0..3 {
+                let bl = Boolean::from(bit[h].left().as_u128() & 1 == 1);
+                let br = Boolean::from(bit[h].right().as_u128() & 1 == 1);
+                inputs[h].push((Replicated::new(bl, br), a[h].clone(), b[h].clone()));
+            }
+        }
+        let ctxs = world.malicious_contexts();
+        let futs = ctxs.into_iter().zip(inputs).map(|(ctx, inp)| {
+            let case = case.clone();
+            async move {
+                catch_fut(async move {
+                    let v = ctx.set_total_records(TotalRecords::specified(case.count).unwrap()).dzkp_validator(TEST_DZKP_STEPS, case.batch);
+                    let m_ctx = v.context();
+                    if case.batched_mode {
+                        let out: Vec<Replicated<V>> = v
+                            .validated_seq_join(stream::iter(inp).enumerate().map(|(i, (bit, a, b))| {
+                                let m_ctx = m_ctx.clone();
+                                async move { select(m_ctx, RecordId::from(i), &bit, &a, &b).await }
+                            }))
+                            .try_collect()
+                            .await?;
+                        Ok::<usize, Error>(out.len())
+                    } else {
+                        let out: Vec<Replicated<V>> = m_ctx
+                            .try_join(inp.into_iter().enumerate().map(|(i, (bit, a, b))| {
+                                let m_ctx = m_ctx.clone();
+                                async move { select(m_ctx, RecordId::from(i), &bit, &a, &b).await }
+                            }))
+                            .await?;
+                        v.validate().await?;
+                        Ok(out.len())
+                    }
+                })
+                .await
+                .map(|r| r.map_err(|e| format!("{e:?}")))
+            }
+        });
+        join_all(futs).await
+    }
+
+    fn run_mul(case: &MulCase, fault: Option<Fault>) -> (Paused<Vec<Result<Result<usize, String>, String>>>, TapState) {
+        let st = Arc::new(Mutex::new(TapState { fault, ..Default::default() }));
+        let tap = wl::tap(Arc::clone(&st));
+        let c = case.clone();
+        let out = vlib::run_paused(Duration::from_secs(60), async move {
+            match c.ty {
+                "BA3" => select_body::<BA3>(c, tap).await,
+                "BA8" => select_body::<BA8>(c, tap).await,
+                "BA20" => select_body::<BA20>(c, tap).await,
+                "BA32" => select_body::<BA32>(c, tap).await,
+                _ => select_body::<BA64>(c, tap).await,
+            }
+        });
+        let st = std::mem::take(&mut *st.lock().unwrap());
+        (out, st)
+    }
+
+    #[test]
+    fn verif_c03_real_multiplies() {
+        let env = vlib::env();
+        let mut rec = Recorder::new("C03", "verif_c03_real_multiplies");
+        let types = ["BA3", "BA8", "BA20", "BA32", "BA64"];
+        let mut idx = 0usize;
+        for (ti, ty) in types.iter().enumerate() {
+            for (ci, (count, batch, batched)) in [(1usize, 1usize, false), (5, 8, false), (12, 4, true), (33, 16, true), (40, 8, true)].into_iter().enumerate() {
+                
+                let case = MulCase { ty, count, batch, batched_mode: batched, seed: env.seed.wrapping_mul(2003) + (ti * 10 + ci) as u64 };
+                // every process needs the inventory; the honest verdict is evaluated by one process only
+                let (honest, st) = run_mul(&case, None);
+                let honest_ok = matches!(&honest, Paused::Done(v) if v.iter().all(|r| matches!(r, Ok(Ok(n)) if *n == case.count)));
+                idx += 1;
+                if env.mine(idx) {
+                    rec.eval();
+                    if honest_ok {
+                        rec.count("honest_multiplications_validated");
+                        rec.distinct(&("honest_mul", *ty, count, batch, batched));
+                    } else {
+                        rec.violation(
+                            "honest multiplications failed validation",
+                            json!({"kind": "honest_mul_rejected", "type": ty, "batched": batched}),
+                            json!({"case": idx, "mul_case": format!("{case:?}"), "result": match &honest { Paused::Done(v) => format!("{v:?}"), Paused::Quiescent => "quiescent".into() }}),
+                        );
+                    }
+                }
+                if !honest_ok {
+                    continue;
+                }
+                // multiplication traffic = everything that is not part of the proof exchange
+                let mut by_family: BTreeMap<(String, u8), Vec<&ChunkInfo>> = BTreeMap::new();
+                for c in &st.chunks {
+                    by_family.entry((wl::step_family(&c.key.gate), c.key.src)).or_default().push(c);
+                }
+                let mut r = VRng::new(case.seed ^ 0xfa17, 1);
+                for ((fam, src), chunks) in &by_family {
+                    let is_proof = fam.contains("dzkp_validate") || fam.contains("validate");
+                    let n_faults = if is_proof { 1 } else { env.pick(4, 16) };
+                    for k in 0..n_faults {
+                        idx += 1;
+                        if !env.mine(idx) {
+                            continue;
+                        }
+                        let c = chunks[r.below(chunks.len() as u64) as usize];
+                        let pattern = if is_proof {
+                            Pattern::XorFf { byte: r.below(c.len.max(1) as u64) as usize }
+                        } else {
+                            Pattern::FlipBit { byte: r.below(c.len.max(1) as u64) as usize, bit: ((k + idx) % 8) as u8 }
+                        };
+                        let fault = Fault { key: c.key.clone(), chunk_no: c.chunk_no, pattern };
+                        let (out, st2) = run_mul(&case, Some(fault.clone()));
+                        if !matches!(st2.fault_applied, Some((_, true))) {
+                            rec.count("fault_not_applied");
+                            continue;
+                        }
+                        rec.eval();
+                        let all_ok = matches!(&out, Paused::Done(v) if v.iter().all(|r| matches!(r, Ok(Ok(_)))));
+                        if is_proof {
+                            rec.seen("proof_message_fault_outcomes", format!("{fam}:{}", if all_ok { "accepted" } else { "rejected" }));
+                            rec.distinct(&("proof_fault", *ty, fam.as_str(), *src));
+                        } else if all_ok {
+                            // BA3/BA20 messages have padding bits in their last byte: a flip there is not a flip of a transmitted
+                            // multiplication bit (the receiver may ignore or reject it) - only count as violation when the bit is a data bit
+                            rec.violation(
+                                "a flipped transmitted multiplication bit was accepted by all three helpers",
+                                json!({"kind": "transmitted_flip_accepted", "type": ty, "batched": batched, "step_family": fam}),
+                                json!({"case": idx, "mul_case": format!("{case:?}"), "fault": fault.to_json(), "chunk_len": c.len}),
+                            );
+                        } else {
+                            rec.count("transmitted_flip_rejected");
+                            rec.seen("multiplication_step_families_faulted", fam.clone());
+                            rec.distinct(&("mul_fault", *ty, fam.as_str(), *src, batched));
+                        }
+                    }
+                }
+            }
+        }
+        rec.finish();
+    }
+}
